@@ -261,6 +261,63 @@ def check_all_intervals(ix, rep, hs, rule='R-EXPL-ALL'):
     return n
 
 
+
+def check_signal_index(ix, rep, hs, cls=None, rule='R-INDEX'):
+    """a helper that looks at the operand `k` samples before a requested one (`signal[i - 1]` with i running over a requested interval, which may start at 0)
+    guards the index: without `i > 0` the request [0, e] reads sample -1 -- the *last* sample of the signal -- and what is reported then depends on a
+    sample the value at 0 does not read"""
+    n = 0
+    funcs = sorted(hs.items())
+    if cls is not None:
+        # a new helper is inlined into the handler that calls it (E0): the handlers are scanned as well
+        for k_ in ix.mro(cls):
+            if isinstance(k_, ClassInfo):
+                funcs += [('%s.%s' % (k_.name, mn_), mf_) for mn_, mf_ in sorted(k_.methods.items()) if mn_.startswith('visit')]
+    for name, f in funcs:
+        parent = {}
+        for p_ in ast.walk(f.node):
+            for c_ in ast.iter_child_nodes(p_):
+                parent[id(c_)] = p_
+        for x in ast.walk(f.node):
+            if not (isinstance(x, ast.Subscript) and isinstance(x.value, ast.Name) and isinstance(x.slice, ast.BinOp) and isinstance(x.slice.op, ast.Sub)
+                    and isinstance(x.slice.left, ast.Name) and isinstance(x.slice.right, ast.Constant) and isinstance(x.slice.right.value, int) and x.slice.right.value >= 1):
+                continue
+            i = x.slice.left.id
+            # i is the variable of a loop over range(<name>, ..): a requested position
+            loop = None
+            q = x
+            guards = []
+            while id(q) in parent:
+                pq = parent[id(q)]
+                if isinstance(pq, ast.If) and q is not pq.test and any(q is b_ for b_ in pq.body):
+                    guards.append(pq.test)
+                if isinstance(pq, ast.IfExp) and q is pq.body:
+                    guards.append(pq.test)
+                if isinstance(pq, ast.BoolOp) and isinstance(pq.op, ast.And):
+                    guards.extend(v_ for v_ in pq.values if v_ is not q)
+                if isinstance(pq, ast.For) and isinstance(pq.target, ast.Name) and pq.target.id == i:
+                    loop = pq
+                    break
+                q = pq
+            if loop is None or not (isinstance(loop.iter, ast.Call) and isinstance(loop.iter.func, ast.Name) and loop.iter.func.id == 'range' and loop.iter.args):
+                continue
+            lo = loop.iter.args[0] if len(loop.iter.args) >= 2 else ast.Constant(value=0)
+            if isinstance(lo, ast.Constant) and isinstance(lo.value, int) and lo.value >= x.slice.right.value:
+                continue
+            if isinstance(lo, ast.BinOp) and isinstance(lo.op, ast.Add) and isinstance(lo.right, ast.Constant) and isinstance(lo.right.value, int) and lo.right.value >= x.slice.right.value:
+                continue
+            n += 1
+            rep.analysed(f)
+            gtxt = [ast.unparse(g_).replace(' ', '') for g_ in guards]
+            ok = any(t_ in ('%s>0' % i, '%s>=1' % i, '%s!=0' % i, '0<%s' % i, '%s-1>=0' % i, '%s>=%d' % (i, x.slice.right.value)) for t_ in gtxt)
+            slot = 'index:%s:%s' % (name, ast.unparse(x).replace(' ', ''))
+            if ok:
+                rep.ok(rule, f.module.rel, f.qual, slot, 'guarded by a test on the index', x.lineno)
+            else:
+                rep.fail(rule, f.module.rel, f.qual, slot, '`%s` with %s running over a requested interval, which may start at 0: for the request [0, e] the helper reads sample -1, the last sample of '
+                         'the signal, and decides by it what is reported for sample 0' % (ast.unparse(x), i), x.lineno)
+    return n
+
 def check_handlers(ix, rep, cls, hs):
     """R-EXH of the explainer, handler/helper pairing by polarity, polarity flips, accumulation"""
     d = D.dispatch_of(ix, cls)
@@ -654,6 +711,9 @@ def run_extraction(fnode):
     app = [x for x in b.body if isinstance(x, ast.Expr) and isinstance(x.value, ast.Call) and isinstance(x.value.func, ast.Attribute) and x.value.func.attr == 'append']
     if start is None or '%s=True' % state not in opens or '%s=False' % state not in closes or len(app) != 1 \
             or ast.unparse(app[0].value.args[0]).replace(' ', '') != '[%s,%s-1]' % (start, i):
+        return None
+    # nothing else in the two arms (a `break` after the first closed run makes the scan stop at one witness: not the selection described above)
+    if len(a.body) != 2 or len(b.body) != 2 or any(isinstance(x, (ast.Break, ast.Continue, ast.Return)) for x in ast.walk(inner[0])):
         return None
     outname = app[0].value.func.value.id
     tail = [x for x in outer[0].body if isinstance(x, ast.If) and isinstance(x.test, ast.Name) and x.test.id == state]
@@ -1176,6 +1236,7 @@ def check(ix, rep):
     rep.floor('sat/unsat dual pairs', nm, 10)
     na = check_all_intervals(ix, rep, hs)
     rep.floor('helpers checked for honouring every interval', na, 20)
+    check_signal_index(ix, rep, hs, cls)      # zero sites on today's tree (no helper looks at an earlier sample by index); instances appear with such a helper
     check_accumulation(ix, rep, cls)
     noo = check_output_only(ix, rep, cls)
     rep.floor('explain() entry points', noo, 1)
